@@ -48,6 +48,8 @@ def _files():
                      G.seg([(A, ['FULL', 'String', 2, 3]), (B, ['FULL', i32, 3])], chunks=1)]
     fs['nometa'] = [G.seg([(B, ['FULL', i16, 3]), (A, ['FULL', i32, 2])], chunks=1),
                     G.seg([], meta=False, chunks=2), G.seg([], meta=False, chunks=1)]
+    fs['contig3'] = [G.seg([(B, ['FULL', i16, 3]), (A, ['FULL', i32, 2])], chunks=1),
+                     G.seg([(B, ['FULL', i16, 3]), (A, ['FULL', i32, 2])], chunks=3)]
     fs['be-ts'] = [G.seg([(A, ['FULL', 'TimeStamp', 2]), (B, ['FULL', i32, 3])], chunks=2, big=True),
                    G.seg([(A, ['FULL', 'TimeStamp', 2]), (B, ['FULL', i32, 3])], chunks=1, big=False)]
     # chunk starts that are not multiples of the chunk length (3, then 2+2), so "same chunk" cannot be decided by division
@@ -86,6 +88,8 @@ def _long_at(p):
 
 
 FILES = _files()
+DERIVED = ['short-final', 'mismatch-index']
+PATH_FILES = ['mismatch-index']
 LONG = {'long': _long_file()}
 LONG_AT = [0, 1, 50, 98, 99, 100, 101, 127]
 for _p in LONG_AT:
@@ -96,8 +100,47 @@ _DATA = {}
 def file_bytes(name, seed):
     k = (name, seed)
     if k not in _DATA:
-        _DATA[k] = G.encode(FILES[name] if name in FILES else LONG[name], seed=seed)
+        if name == 'short-final':
+            # 'less data than expected': the last segment's raw data stops 6 bytes early and its lead-in says so, so the data
+            # length is not a multiple of the chunk size although the segment is complete by its own offsets
+            import struct
+            data, idx, layout, ref = G.encode(FILES['contig3'], seed=seed)
+            last = layout[-1]
+            nso = struct.unpack('<Q', data[last['start'] + 12:last['start'] + 20])[0]
+            data = data[:last['start'] + 12] + struct.pack('<Q', nso - 6) + data[last['start'] + 20:len(data) - 6]
+            _DATA[k] = (data, None, layout, ref)
+        elif name == 'mismatch-index':
+            # a .tdms_index beside the file that matches for the first segment only
+            data, _i, layout, ref = G.encode(FILES['separate'], seed=seed)
+            other = [dict(s_) for s_ in FILES['separate']]
+            other[1] = G.seg([(B, ['FULL', 'Int16', 3], [['extra', 'String', '78787878']])], chunks=1)
+            idx = G.encode(other, seed=seed, index=True)[1]
+            _DATA[k] = (data, idx, layout, ref)
+        else:
+            _DATA[k] = G.encode(FILES[name] if name in FILES else LONG[name], seed=seed)
     return _DATA[k]
+
+
+_PATHS = {}
+
+
+def on_disk(name, seed):
+    """data + index written once per worker process into a private temp directory (removed at exit)"""
+    import atexit
+    import os
+    import shutil
+    import tempfile
+    k = (name, seed)
+    if k not in _PATHS:
+        d = tempfile.mkdtemp(prefix='verif_c05_', dir='/dev/shm' if os.path.isdir('/dev/shm') else None)
+        atexit.register(shutil.rmtree, d, True)
+        fb = file_bytes(name, seed)
+        with open(os.path.join(d, 'f.tdms'), 'wb') as f:
+            f.write(fb[0])
+        with open(os.path.join(d, 'f.tdms_index'), 'wb') as f:
+            f.write(fb[1])
+        _PATHS[k] = os.path.join(d, 'f.tdms')
+    return _PATHS[k]
 
 
 _CURRENT_P = [0]
@@ -138,9 +181,13 @@ def norm_file_chunk(dc):
 
 
 class Session(object):
-    def __init__(self, data):
-        self.stream = io.BytesIO(data)
-        self.tf = H.TdmsFile.open(self.stream)
+    def __init__(self, data, path=None):
+        if path is not None:
+            self.stream = None
+            self.tf = H.TdmsFile.open(path)
+        else:
+            self.stream = io.BytesIO(data)
+            self.tf = H.TdmsFile.open(self.stream)
         self.ch = {'a': self.tf['g']['a'], 'b': self.tf['g']['b']}
         self.gens = {'g': [], 'f': []}   # [generator, progress, exhausted, which]
 
@@ -204,7 +251,7 @@ class Session(object):
                               for s in self.tf._reader._segments))
         except Exception:
             priv = None
-        return (self.stream.tell(), tuple((g[3], g[1], g[2]) for g in self.gens['g']),
+        return (self.stream.tell() if self.stream is not None else -1, tuple((g[3], g[1], g[2]) for g in self.gens['g']),
                 tuple((g[1], g[2]) for g in self.gens['f']), tuple(priv) if priv is not None else None)
 
     def close(self):
@@ -220,7 +267,8 @@ def expectations(name, seed):
     if k in _EXPECT:
         return _EXPECT[k]
     data = file_bytes(name, seed)[0]
-    s = Session(data)
+    path = on_disk(name, seed) if name in PATH_FILES else None
+    s = Session(data, path)
     la, lb = len(s.ch['a']), len(s.ch['b'])
     s.close()
     if '@' in name:
@@ -229,12 +277,12 @@ def expectations(name, seed):
     single = {}
     for op in alpha:
         if op[0] in ('idx', 'slice', 'read'):
-            s = Session(data)
+            s = Session(data, path)
             single[repr(op)] = s.do(op)
             s.close()
     seqs = {}
     for which in ('a', 'b'):
-        s = Session(data)
+        s = Session(data, path)
         s.do(['newgen', which])
         out = []
         while True:
@@ -244,7 +292,7 @@ def expectations(name, seed):
                 break
         seqs[which] = out
         s.close()
-    s = Session(data)
+    s = Session(data, path)
     s.do(['newfilegen'])
     out = []
     while True:
@@ -262,7 +310,7 @@ def run_history(name, seed, ops, want_key=False):
     """Replay `ops` on a fresh file; -> (violation tuple | None, key, n_enabled_ops_executed)"""
     alpha, single, seqs = expectations(name, seed)
     data = file_bytes(name, seed)[0]
-    s = Session(data)
+    s = Session(data, on_disk(name, seed) if name in PATH_FILES else None)
     try:
         for i, op in enumerate(ops):
             if not s.enabled(op):
@@ -352,7 +400,7 @@ def _bfs_worker(item):
 def run(ctx):
     from ..run import merge
     seed = ctx.seed
-    names = list(FILES)
+    names = [n for n in FILES if n != 'contig3'] + DERIVED
     depth = 3 if ctx.tier == 'quick' else 4
     items = []
     for n in names:
